@@ -1,7 +1,7 @@
 (* Lemmas about model/NumpyRules.v (numpy's histogram rules 'sturges', 'sqrt', 'rice' as used by
    `bin_feature`, property C13; C09 / C10 through the default bin_method='sturges').
    World Q / N, no axioms. *)
-From Coq Require Import ZArith NArith QArith Qabs Qreduction Lqa Lia List Bool.
+From Coq Require Import ZArith NArith QArith Qabs Qreduction Qpower Lqa Lia List Bool.
 Import ListNotations.
 Open Scope Q_scope.
 From MD Require Import lib.QLists model.Functionals model.Binning model.NumpyRules proofs.BinningProps.
@@ -480,6 +480,467 @@ Proof.
 Qed.
 
 (* ------------------------------------------------------------------ *)
+(* D. `rnd` is IEEE round-to-nearest-even on the binary64 grid; consequence: at an exact point
+      numpy's number of bins is the exact one or one more                                      *)
+
+(* D. `rnd` is round-to-nearest on the binary64 grid *)
+
+Lemma Pos_shiftl_spec n k : Zpos (Pos.shiftl n k) = (Zpos n * 2 ^ Z.of_N k)%Z.
+Proof.
+  destruct k as [|p]; [simpl; lia|].
+  unfold Pos.shiftl.
+  rewrite (Pos.iter_swap_gen _ _ Zpos xO (Z.mul 2)) by reflexivity.
+  change (Pos.iter (Z.mul 2) (Zpos n) p) with (Z.shiftl (Zpos n) (Zpos p)).
+  rewrite Z.shiftl_mul_pow2 by lia. reflexivity.
+Qed.
+
+Lemma Pos_shiftr_succ_xO p t : Pos.shiftr p~0 (N.succ t) = Pos.shiftr p t.
+Proof.
+  destruct t as [|k]; [reflexivity|].
+  simpl. rewrite Pos.iter_succ_r. reflexivity.
+Qed.
+
+Lemma shiftr_exact p : forall t, (t <= tz p)%N ->
+  Zpos p = (Zpos (Pos.shiftr p t) * 2 ^ Z.of_N t)%Z.
+Proof.
+  induction p as [p IH|p IH|]; intros t Ht; cbn [tz] in Ht.
+  - assert (t = 0%N) by lia. subst t. simpl. lia.
+  - destruct (N.eq_dec t 0) as [->|Hne]; [simpl; lia|].
+    assert (Et : t = N.succ (N.pred t)) by lia. rewrite Et.
+    rewrite Pos_shiftr_succ_xO, N2Z.inj_succ, Z.pow_succ_r by lia.
+    rewrite (Pos2Z.inj_xO p), (IH (N.pred t)) at 1 by lia. ring.
+  - assert (t = 0%N) by lia. subst t. simpl. lia.
+Qed.
+
+Lemma is_pow2_spec b : is_pow2 b = true -> Zpos b = (2 ^ Z.of_N (tz b))%Z.
+Proof.
+  unfold is_pow2. intros H. apply Pos.eqb_eq in H.
+  rewrite (shiftr_exact b (tz b)) at 1 by lia. rewrite H. lia.
+Qed.
+
+Lemma div_eucl_fast_spec a b : (0 <= a)%Z ->
+  let '(f, r) := div_eucl_fast a b in (a = f * Zpos b + r /\ 0 <= r < Zpos b)%Z.
+Proof.
+  intros Ha. unfold div_eucl_fast. destruct (is_pow2 b) eqn:E.
+  - apply is_pow2_spec in E. set (k := Z.of_N (tz b)) in *.
+    assert (Hk : (0 <= k)%Z) by (unfold k; lia).
+    rewrite Z.shiftl_mul_pow2, Z.shiftr_div_pow2 by exact Hk. rewrite E.
+    assert (Hp : (0 < 2 ^ k)%Z) by (apply Z.pow_pos_nonneg; lia).
+    pose proof (Z.div_mod a (2 ^ k) ltac:(lia)) as D.
+    pose proof (Z.mod_pos_bound a (2 ^ k) Hp) as M. split; lia.
+  - pose proof (Z_div_mod a (Zpos b) ltac:(lia)) as D.
+    destruct (Z.div_eucl a (Zpos b)) as [q r]. destruct D as [D1 D2]. split; lia.
+Qed.
+
+(* nearest, ties to even *)
+Lemma rne_div_spec a b : (0 <= a)%Z ->
+  let f := rne_div a b in
+  (0 <= f /\ 2 * Z.abs (f * Zpos b - a) <= Zpos b /\
+   (2 * Z.abs (f * Zpos b - a) = Zpos b -> Z.even f = true))%Z.
+Proof.
+  intros Ha. unfold rne_div. pose proof (div_eucl_fast_spec a b Ha) as S.
+  destruct (div_eucl_fast a b) as [f r]. destruct S as [S1 S2].
+  assert (Hf : (0 <= f)%Z) by nia.
+  destruct (2 * r ?= Zpos b)%Z eqn:C.
+  - apply Z.compare_eq in C. destruct (Z.even f) eqn:Ev.
+    + repeat split; [lia| lia| auto].
+    + repeat split; [lia| lia|]. intros _.
+      rewrite Z.even_add, Ev. reflexivity.
+  - rewrite Z.compare_lt_iff in C. repeat split; [lia| lia| lia].
+  - rewrite Z.compare_gt_iff in C. repeat split; [lia| lia| lia].
+Qed.
+
+Lemma pow2Q_Qpower e : pow2Q e == (2 # 1) ^ e.
+Proof.
+  destruct e as [|p|p].
+  - reflexivity.
+  - unfold pow2Q. change (Z.pow_pos 2 p) with (2 ^ Zpos p)%Z.
+    rewrite Zpower_Qpower by lia. reflexivity.
+  - unfold pow2Q. change ((2 # 1) ^ Zneg p) with (/ ((2 # 1) ^ Zpos p)).
+    assert (H : inject_Z (2 ^ Zpos p) == (2 # 1) ^ Zpos p) by (rewrite Zpower_Qpower by lia; reflexivity).
+    rewrite <- H. rewrite <- Pos2Z.inj_pow. reflexivity.
+Qed.
+
+Lemma pow2Q_pos e : 0 < pow2Q e.
+Proof.
+  destruct e as [|p|p]; unfold pow2Q; try reflexivity.
+  change (Z.pow_pos 2 p) with (2 ^ Zpos p)%Z. rewrite <- Pos2Z.inj_pow. reflexivity.
+Qed.
+
+Lemma pow2Q_add a b : pow2Q (a + b) == pow2Q a * pow2Q b.
+Proof. rewrite !pow2Q_Qpower. apply Qpower_plus. discriminate. Qed.
+
+Lemma pow2Q_succ e : pow2Q (e + 1) == 2 * pow2Q e.
+Proof. rewrite pow2Q_add. change (pow2Q 1) with 2. ring. Qed.
+
+Lemma pow2Q_opp e : pow2Q (- e) == / pow2Q e.
+Proof. rewrite !pow2Q_Qpower. apply Qpower_opp. Qed.
+
+Lemma pow2Q_ge1 e : (0 <= e)%Z -> 1 <= pow2Q e.
+Proof.
+  intros H. destruct e as [|p|p]; [apply Qle_refl| |lia].
+  unfold pow2Q. change (Z.pow_pos 2 p) with (2 ^ Zpos p)%Z.
+  change 1 with (inject_Z 1). rewrite <- Zle_Qle.
+  pose proof (Z.pow_pos_nonneg 2 (Zpos p) ltac:(lia) ltac:(lia)). lia.
+Qed.
+
+Lemma pow2Q_le_mono a b : (a <= b)%Z -> pow2Q a <= pow2Q b.
+Proof.
+  intros H. replace b with (a + (b - a))%Z by lia. rewrite pow2Q_add.
+  pose proof (pow2Q_pos a). pose proof (pow2Q_ge1 (b - a) ltac:(lia)). nra.
+Qed.
+
+Lemma pow2Q_of_Z e : (0 <= e)%Z -> pow2Q e == inject_Z (2 ^ e).
+Proof. intros H. rewrite pow2Q_Qpower. rewrite Zpower_Qpower by exact H. reflexivity. Qed.
+
+Lemma Pos_le_Z a b : (a <= b)%positive <-> (Zpos a <= Zpos b)%Z.
+Proof. lia. Qed.
+
+(* 2^e <= n / d, decided with shifts *)
+Lemma ilog2_ge_spec e n d :
+  (match e with
+   | Zneg p => (d <=? Pos.shiftl n (Npos p))%positive
+   | Z0 => (d <=? n)%positive
+   | Zpos p => (Pos.shiftl d (Npos p) <=? n)%positive
+   end) = true <-> pow2Q e <= Zpos n # d.
+Proof.
+  destruct e as [|p|p]; rewrite Pos.leb_le, Pos_le_Z; unfold pow2Q, Qle; cbn [Qnum Qden inject_Z].
+  - lia.
+  - rewrite Pos_shiftl_spec. change (Z.pow_pos 2 p) with (2 ^ Zpos p)%Z.
+    change (Z.of_N (Npos p)) with (Zpos p). lia.
+  - rewrite Pos_shiftl_spec, Pos2Z.inj_pow. change (Z.of_N (Npos p)) with (Zpos p). lia.
+Qed.
+
+Theorem ilog2_frac_spec n d :
+  pow2Q (ilog2_frac n d) <= Zpos n # d /\ Zpos n # d < 2 * pow2Q (ilog2_frac n d).
+Proof.
+  unfold ilog2_frac.
+  set (ln := Z.log2 (Zpos n)). set (ld := Z.log2 (Zpos d)). set (e0 := (ln - ld)%Z).
+  pose proof (Z.log2_spec (Zpos n) ltac:(lia)) as [N1 N2]. fold ln in N1, N2.
+  pose proof (Z.log2_spec (Zpos d) ltac:(lia)) as [D1 D2]. fold ld in D1, D2.
+  pose proof (Z.log2_nonneg (Zpos n)) as Ln. fold ln in Ln.
+  pose proof (Z.log2_nonneg (Zpos d)) as Ld. fold ld in Ld.
+  (* in Q *)
+  set (A := pow2Q ln). set (B := pow2Q ld).
+  assert (HA : 0 < A) by apply pow2Q_pos. assert (HB : 0 < B) by apply pow2Q_pos.
+  assert (QN1 : A <= inject_Z (Zpos n)) by (unfold A; rewrite pow2Q_of_Z by lia; rewrite <- Zle_Qle; lia).
+  assert (QN2 : inject_Z (Zpos n) < 2 * A).
+  { unfold A. rewrite <- pow2Q_succ, pow2Q_of_Z by lia. rewrite <- Zlt_Qlt. exact N2. }
+  assert (QD1 : B <= inject_Z (Zpos d)) by (unfold B; rewrite pow2Q_of_Z by lia; rewrite <- Zle_Qle; lia).
+  assert (QD2 : inject_Z (Zpos d) < 2 * B).
+  { unfold B. rewrite <- pow2Q_succ, pow2Q_of_Z by lia. rewrite <- Zlt_Qlt. exact D2. }
+  assert (E0 : pow2Q e0 == A / B).
+  { unfold e0, A, B. replace (ln - ld)%Z with (ln + - ld)%Z by lia.
+    rewrite pow2Q_add, pow2Q_opp. reflexivity. }
+  set (x := Zpos n # d). assert (Hx : x == inject_Z (Zpos n) / inject_Z (Zpos d)) by apply Qmake_Qdiv.
+  set (N := inject_Z (Zpos n)) in *. set (D := inject_Z (Zpos d)) in *.
+  assert (HD : 0 < D) by lra.
+  assert (U : x < 2 * pow2Q e0).
+  { rewrite Hx, E0. apply Qlt_shift_div_r; [exact HD|].
+    assert (T : 2 * (A / B) * D == 2 * A * (D / B)) by (field; lra). rewrite T.
+    assert (1 <= D / B) by (apply Qle_shift_div_l; lra). nra. }
+  assert (L : pow2Q e0 < 2 * x).
+  { rewrite Hx, E0. apply Qlt_shift_div_r; [exact HB|].
+    assert (T : 2 * (N / D) * B == 2 * N * (B / D)) by (field; lra). rewrite T.
+    assert (1 < 2 * (B / D)).
+    { assert (T2 : 2 * (B / D) == (2 * B) / D) by (field; lra). rewrite T2.
+      apply Qlt_shift_div_l; lra. }
+    nra. }
+  match goal with |- context [if ?c then _ else _] => destruct c eqn:G end.
+  - apply ilog2_ge_spec in G. fold x in G. split; [exact G| exact U].
+  - assert (G' : ~ pow2Q e0 <= x) by (intros H; apply ilog2_ge_spec in H; congruence).
+    assert (E1 : pow2Q e0 == 2 * pow2Q (e0 - 1)).
+    { rewrite <- pow2Q_succ. replace (e0 - 1 + 1)%Z with e0 by lia. reflexivity. }
+    split; [lra| lra].
+Qed.
+
+Lemma dyadic_spec f qe : (0 <= f)%Z -> dyadic f qe == inject_Z f * pow2Q qe.
+Proof.
+  intros Hf. unfold dyadic. destruct f as [|p|p]; [ring| |lia].
+  destruct qe as [|k|k].
+  - simpl. unfold pow2Q. ring.
+  - rewrite Z.shiftl_mul_pow2 by lia. rewrite inject_Z_mult, pow2Q_of_Z by lia. reflexivity.
+  - set (t := N.min (tz p) (Npos k)).
+    pose proof (shiftr_exact p t ltac:(lia)) as Hp.
+    unfold pow2Q, Qeq, Qmult, inject_Z. cbn [Qnum Qden].
+    rewrite Pos_shiftl_spec, Pos.mul_1_l, Pos2Z.inj_pow.
+    assert (Hk : (2 ^ Zpos k = 2 ^ Z.of_N t * 2 ^ Z.of_N (Npos k - t))%Z).
+    { rewrite <- Z.pow_add_r by lia. f_equal. lia. }
+    rewrite Hk. rewrite Hp at 1. ring.
+Qed.
+
+Lemma inject_Z_eq u v : inject_Z u == inject_Z v -> u = v.
+Proof. unfold Qeq, inject_Z. simpl. lia. Qed.
+
+(* the nearest integer to a / b, scaled by q *)
+Lemma rne_scale a b q x : (0 <= a)%Z -> 0 < q ->
+  inject_Z a / inject_Z (Zpos b) * q == x ->
+  let F := inject_Z (rne_div a b) * q in
+  (0 <= rne_div a b)%Z /\ - q <= 2 * (F - x) /\ 2 * (F - x) <= q /\
+  ((2 * (F - x) == q \/ 2 * (F - x) == - q) -> Z.even (rne_div a b) = true).
+Proof.
+  intros Ha Hq Hx. cbv zeta.
+  pose proof (rne_div_spec a b Ha) as S. cbv zeta in S. destruct S as (S0 & S1 & S2).
+  set (f := rne_div a b) in *.
+  set (A := inject_Z a). set (B := inject_Z (Zpos b)). set (Fq := inject_Z f).
+  assert (HB : 0 < B) by (unfold B; change 0 with (inject_Z 0); rewrite <- Zlt_Qlt; lia).
+  assert (E : inject_Z (2 * (f * Zpos b - a)) == 2 * (Fq * B - A)).
+  { unfold Fq, B, A. rewrite inject_Z_mult. unfold Zminus. rewrite inject_Z_plus, inject_Z_mult, inject_Z_opp.
+    change (inject_Z 2) with 2. ring. }
+  assert (U : 2 * (Fq * B - A) <= B).
+  { rewrite <- E. unfold B. rewrite <- Zle_Qle. lia. }
+  assert (L : - B <= 2 * (Fq * B - A)).
+  { rewrite <- E. unfold B. rewrite <- inject_Z_opp, <- Zle_Qle. lia. }
+  set (y := A / B) in *.
+  assert (Hy : y * B == A) by (unfold y; field; lra).
+  assert (Hd : Fq * q - x == q * (Fq - y)).
+  { assert (Hx2 : x == y * q) by (symmetry; exact Hx). rewrite Hx2. ring. }
+  assert (U' : 2 * (Fq - y) <= 1) by nra.
+  assert (L' : -1 <= 2 * (Fq - y)) by nra.
+  split; [exact S0|]. split; [rewrite Hd; nra|]. split; [rewrite Hd; nra|].
+  intros T. apply S2.
+  assert (T' : 2 * (Fq * B - A) == B \/ 2 * (Fq * B - A) == - B).
+  { destruct T as [T|T]; rewrite Hd in T.
+    - left. assert (2 * (Fq - y) == 1) by nra. nra.
+    - right. assert (2 * (Fq - y) == -1) by nra. nra. }
+  destruct T' as [T'|T']; rewrite <- E in T'.
+  - apply inject_Z_eq in T'. lia.
+  - unfold B in T'. rewrite <- inject_Z_opp in T'. apply inject_Z_eq in T'. lia.
+Qed.
+
+(* `rnd_pos n d` is a nearest point to x = n / d of the grid of spacing 2^qe, qe = max(e - 52, -1074)
+   for 2^e <= x < 2^(e+1): the binary64 grid (53 digits, subnormals from 2^-1074); a tie goes to
+   the even multiple *)
+Theorem rnd_pos_spec n d :
+  exists f e,
+    let x := Zpos n # d in
+    let qe := Z.max (e - 52) (-1074) in
+    pow2Q e <= x /\ x < 2 * pow2Q e /\ (0 <= f)%Z /\
+    rnd_pos n d == inject_Z f * pow2Q qe /\
+    - pow2Q qe <= 2 * (rnd_pos n d - x) /\ 2 * (rnd_pos n d - x) <= pow2Q qe /\
+    ((2 * (rnd_pos n d - x) == pow2Q qe \/ 2 * (rnd_pos n d - x) == - pow2Q qe) -> Z.even f = true).
+Proof.
+  unfold rnd_pos.
+  set (t := N.min (tz n) (tz d)). set (n' := Pos.shiftr n t). set (d' := Pos.shiftr d t).
+  pose proof (shiftr_exact n t ltac:(lia)) as Hn. fold n' in Hn.
+  pose proof (shiftr_exact d t ltac:(lia)) as Hd. fold d' in Hd.
+  assert (Hx : Zpos n # d == Zpos n' # d').
+  { unfold Qeq. cbn [Qnum Qden]. rewrite Hn, Hd. ring. }
+  pose proof (ilog2_frac_spec n' d') as [E1 E2].
+  unfold ulp_exp. set (e := ilog2_frac n' d') in *.
+  set (qe := Z.max (e - 52) (-1074)).
+  set (x' := Zpos n' # d') in *.
+  assert (Hx' : x' == inject_Z (Zpos n') / inject_Z (Zpos d')) by apply Qmake_Qdiv.
+  pose proof (pow2Q_pos qe) as Hq.
+  assert (HD : 0 < inject_Z (Zpos d')) by reflexivity.
+  set (f := match qe with
+            | Zneg k => rne_div (Zpos (Pos.shiftl n' (Npos k))) d'
+            | Z0 => rne_div (Zpos n') d'
+            | Zpos k => rne_div (Zpos n') (Pos.shiftl d' (Npos k))
+            end).
+  assert (S : (0 <= f)%Z /\ - pow2Q qe <= 2 * (inject_Z f * pow2Q qe - x') /\
+              2 * (inject_Z f * pow2Q qe - x') <= pow2Q qe /\
+              ((2 * (inject_Z f * pow2Q qe - x') == pow2Q qe \/
+                2 * (inject_Z f * pow2Q qe - x') == - pow2Q qe) -> Z.even f = true)).
+  { unfold f. destruct qe as [|k|k] eqn:Eq.
+    - apply rne_scale; [lia| exact Hq|]. rewrite Hx'. change (pow2Q 0) with 1. ring.
+    - apply rne_scale; [lia| exact Hq|]. rewrite Hx'.
+      rewrite Pos_shiftl_spec. change (Z.of_N (Npos k)) with (Zpos k).
+      rewrite inject_Z_mult, pow2Q_of_Z by lia.
+      assert (0 < inject_Z (2 ^ Zpos k)).
+      { change 0 with (inject_Z 0). rewrite <- Zlt_Qlt. apply Z.pow_pos_nonneg; lia. }
+      field. split; lra.
+    - apply rne_scale; [lia| exact Hq|]. rewrite Hx'.
+      rewrite Pos_shiftl_spec. change (Z.of_N (Npos k)) with (Zpos k).
+      rewrite inject_Z_mult. change (Zneg k) with (- Zpos k)%Z. rewrite pow2Q_opp, pow2Q_of_Z by lia.
+      assert (0 < inject_Z (2 ^ Zpos k)).
+      { change 0 with (inject_Z 0). rewrite <- Zlt_Qlt. apply Z.pow_pos_nonneg; lia. }
+      field. split; lra. }
+  destruct S as (S0 & S1 & S2 & S3).
+  exists f, e. cbv zeta. fold qe.
+  rewrite (dyadic_spec f qe S0). rewrite Hx.
+  repeat split; auto.
+Qed.
+
+(* signed *)
+Theorem rnd_spec x : ~ x == 0 ->
+  exists f e,
+    let qe := Z.max (e - 52) (-1074) in
+    pow2Q e <= Qabs x /\ Qabs x < 2 * pow2Q e /\
+    Qabs (rnd x) == inject_Z f * pow2Q qe /\ (0 <= f)%Z /\
+    - pow2Q qe <= 2 * (rnd x - x) /\ 2 * (rnd x - x) <= pow2Q qe /\
+    ((2 * (rnd x - x) == pow2Q qe \/ 2 * (rnd x - x) == - pow2Q qe) -> Z.even f = true).
+Proof.
+  intros Hx. destruct x as [[|n|n] d].
+  - exfalso. apply Hx. reflexivity.
+  - unfold rnd. cbn [Qnum Qden].
+    destruct (rnd_pos_spec n d) as (f & e & P). cbv zeta in P.
+    destruct P as (P1 & P2 & P3 & P4 & P5 & P6 & P7).
+    exists f, e. cbv zeta.
+    assert (Ha : Qabs (Zpos n # d) = Zpos n # d) by reflexivity. rewrite Ha.
+    assert (Hr : Qabs (rnd_pos n d) == rnd_pos n d).
+    { apply Qabs_pos. rewrite P4. pose proof (pow2Q_pos (Z.max (e - 52) (-1074))).
+      assert (0 <= inject_Z f) by (change 0 with (inject_Z 0); rewrite <- Zle_Qle; exact P3). nra. }
+    rewrite Hr. repeat split; auto.
+  - unfold rnd. cbn [Qnum Qden].
+    destruct (rnd_pos_spec n d) as (f & e & P). cbv zeta in P.
+    destruct P as (P1 & P2 & P3 & P4 & P5 & P6 & P7).
+    exists f, e. cbv zeta.
+    assert (Ha : Qabs (Zneg n # d) = Zpos n # d) by reflexivity. rewrite Ha.
+    assert (Hm : Zneg n # d == - (Zpos n # d)) by reflexivity.
+    assert (Hp : 0 <= rnd_pos n d).
+    { rewrite P4. pose proof (pow2Q_pos (Z.max (e - 52) (-1074))).
+      assert (0 <= inject_Z f) by (change 0 with (inject_Z 0); rewrite <- Zle_Qle; exact P3). nra. }
+    assert (Hr : Qabs (- rnd_pos n d) == rnd_pos n d).
+    { rewrite Qabs_opp. apply Qabs_pos. exact Hp. }
+    rewrite Hr, Hm. repeat split; auto; try lra.
+    intros [T|T]; apply P7; [right|left]; lra.
+Qed.
+
+(* relative error 2^-53 in the normal range *)
+Corollary rnd_rel_error x : pow2Q (-1022) <= Qabs x ->
+  Qabs (rnd x - x) <= Qabs x * pow2Q (-53).
+Proof.
+  intros Hn.
+  assert (Hx : ~ x == 0).
+  { intros H. rewrite H in Hn. change (Qabs 0) with 0 in Hn. pose proof (pow2Q_pos (-1022)). lra. }
+  destruct (rnd_spec x Hx) as (f & e & P). cbv zeta in P.
+  destruct P as (P1 & P2 & _ & _ & P5 & P6 & _).
+  assert (He : (-1022 <= e)%Z).
+  { destruct (Z_le_gt_dec (-1022) e) as [L|G]; [exact L|].
+    pose proof (pow2Q_le_mono (e + 1) (-1022) ltac:(lia)) as M. rewrite pow2Q_succ in M. lra. }
+  replace (Z.max (e - 52) (-1074)) with (e - 52)%Z in * by lia.
+  assert (Eq : pow2Q (e - 52) == 2 * (pow2Q e * pow2Q (-53))).
+  { replace (e - 52)%Z with (e + -53 + 1)%Z by lia. rewrite pow2Q_succ, pow2Q_add. reflexivity. }
+  pose proof (pow2Q_pos (-53)). pose proof (pow2Q_pos e).
+  apply Qabs_Qle_condition. split; nra.
+Qed.
+
+
+
+Definition u53 : Q := pow2Q (-53).
+
+Lemma rnd_rel_bounds x : pow2Q (-1022) <= x ->
+  x * (1 - u53) <= rnd x /\ rnd x <= x * (1 + u53).
+Proof.
+  intros H. pose proof (pow2Q_pos (-1022)) as Hp.
+  assert (Ha : Qabs x == x) by (apply Qabs_pos; lra).
+  pose proof (rnd_rel_error x ltac:(rewrite Ha; exact H)) as E. rewrite Ha in E.
+  apply Qabs_Qle_condition in E. fold u53 in E. destruct E as [E1 E2]. split; lra.
+Qed.
+
+Lemma ceilQ_le x z : x <= inject_Z z -> (ceilQ x <= z)%Z.
+Proof.
+  destruct x as [a b]. unfold ceilQ, Qle, inject_Z. cbn [Qnum Qden]. intros H.
+  assert ((- z) <= (- a) / Zpos b)%Z by (apply Z.div_le_lower_bound; lia). lia.
+Qed.
+
+Lemma ceilQ_gt x z : inject_Z z < x -> (z < ceilQ x)%Z.
+Proof.
+  destruct x as [a b]. unfold ceilQ, Qlt, inject_Z. cbn [Qnum Qden]. intros H.
+  assert ((- a) / Zpos b < - z)%Z by (apply Z.div_lt_upper_bound; lia). lia.
+Qed.
+
+(* int(ceil(d / (d / K))) in binary64 is K or K + 1 *)
+Theorem bins_at_exact_point_range d K :
+  tiny_range <= d -> (1 <= K <= 2 ^ 21)%N ->
+  (K <= bins_at_exact_point d K <= K + 1)%N.
+Proof.
+  intros Hd HK. unfold bins_at_exact_point.
+  set (k := NQ K).
+  assert (Hk1 : 1 <= k) by (unfold k, NQ; change 1 with (inject_Z 1); rewrite <- Zle_Qle; lia).
+  assert (Hk2 : k <= inject_Z (2 ^ 21)) by (unfold k, NQ; rewrite <- Zle_Qle; lia).
+  pose proof rnd_rel_bounds as R.
+  set (m := pow2Q (-1022)) in *. set (u := u53) in *.
+  assert (Hm : 0 < m) by apply pow2Q_pos.
+  assert (Ht : tiny_range == m * (4194304 # 1)) by (vm_compute; reflexivity).
+  assert (Ht2 : m * (4194304 # 1) <= 1) by (vm_compute; discriminate).
+  assert (Hu : 0 < u) by apply pow2Q_pos.
+  assert (Hu2 : u * (4194305 # 1) <= 1) by (vm_compute; discriminate).
+  change (inject_Z (2 ^ 21)) with (2097152 # 1) in Hk2.
+  rewrite Ht in Hd. clear Ht. clearbody m u.
+  (* w = rnd (d / k) *)
+  set (x1 := d / k).
+  assert (Hx1 : x1 * k == d) by (unfold x1; field; lra).
+  assert (Hx1m : m <= x1) by nra.
+  pose proof (R x1 Hx1m) as [W1 W2]. set (w := rnd x1) in *.
+  assert (Hw : 0 < w) by nra.
+  set (x2 := d / w).
+  assert (Hx2 : x2 * w == d) by (unfold x2; field; lra).
+  assert (Hx2pos : 0 < x2).
+  { unfold x2. apply Qlt_shift_div_l; [exact Hw| nra]. }
+  (* k / (1 + u) <= x2 <= k / (1 - u) *)
+  assert (B1 : k <= x2 * (1 + u)) by nra.
+  assert (B2 : x2 * (1 - u) <= k) by nra.
+  assert (Hx2m : m <= x2).
+  { nra. }
+  pose proof (R x2 Hx2m) as [Q1 Q2]. set (q := rnd x2) in *.
+  assert (Up : q <= k + 1) by nra.
+  assert (Lo : k - 1 < q) by nra.
+  assert (Hkz : k = inject_Z (Z.of_N K)) by reflexivity.
+  assert (C1 : (ceilQ q <= Z.of_N K + 1)%Z).
+  { apply ceilQ_le. rewrite inject_Z_plus, <- Hkz. exact Up. }
+  assert (C2 : (Z.of_N K - 1 < ceilQ q)%Z).
+  { apply ceilQ_gt. unfold Z.sub. rewrite inject_Z_plus, <- Hkz. exact Lo. }
+  lia.
+Qed.
+
+Lemma bins_exact_le r n : (0 < n)%N -> (n < n_limit)%N -> (bins_exact r n <= 2 ^ 21)%N.
+Proof.
+  intros Hn Hlim. unfold n_limit in Hlim. destruct r; cbn [bins_exact].
+  - pose proof (clog2_spec n Hn) as [_ H]. specialize (H 40%N ltac:(lia)).
+    change (2 ^ 21)%N with 2097152%N. lia.
+  - pose proof (csqrt_spec n) as [_ H]. specialize (H (2 ^ 20)%N).
+    change (2 ^ 20 * 2 ^ 20)%N with (2 ^ 40)%N in H. specialize (H ltac:(lia)).
+    change (2 ^ 21)%N with 2097152%N. change (2 ^ 20)%N with 1048576%N in H. lia.
+  - pose proof (ccbrt_spec (8 * n)) as [_ H]. specialize (H (2 ^ 15)%N).
+    change (cube (2 ^ 15))%N with (2 ^ 45)%N in H.
+    change (2 ^ 45)%N with (32 * 2 ^ 40)%N in H. specialize (H ltac:(lia)).
+    change (2 ^ 21)%N with 2097152%N. change (2 ^ 15)%N with 32768%N in H. lia.
+Qed.
+
+(* numpy's number of bins of a non-constant sample (n < 2^40) is that of the exact rule, except
+   that at an exact point (n = 2^k for 'sturges', k^2 for 'sqrt', 8 or 27 for 'rice') it may be
+   one more *)
+Theorem np_nbins_bound r k n lo hi K es :
+  np_edges r k n lo hi = NpOk K es -> (0 < n)%N -> lo < hi ->
+  K = nbins_exact r k n lo hi \/
+  (exact_point r n = true /\ K = (nbins_exact r k n lo hi + 1)%N).
+Proof.
+  intros H Hn Hlt. destruct (exact_point r n) eqn:Hx.
+  2:{ left. eapply np_nbins_exact; eauto. }
+  apply np_edges_ok in H. destruct H as (fe & le & Ho & _).
+  unfold outer_np in Ho.
+  destruct (n =? 0)%N eqn:En; [apply N.eqb_eq in En; lia|].
+  destruct (n_limit <=? n)%N eqn:El; [discriminate|]. apply N.leb_gt in El.
+  destruct (Qeq_bool lo hi) eqn:Eq; [apply Qeq_bool_iff in Eq; lra|].
+  destruct (is_inf _); [discriminate|].
+  destruct (nbins_np r k n lo hi (rnd (hi - lo))) as [K0|] eqn:EK; [|discriminate].
+  injection Ho as _ _ HK. subst K0. unfold nbins_np in EK. rewrite Hx in EK.
+  pose proof (bins_exact_pos r n Hn) as K1. pose proof (bins_exact_le r n Hn El) as K2.
+  assert (G : forall d, tiny_range <= d -> K = bins_at_exact_point d (bins_exact r n) ->
+              K = bins_exact r n \/ K = (bins_exact r n + 1)%N).
+  { intros d Hd ->. pose proof (bins_at_exact_point_range d (bins_exact r n) Hd ltac:(lia)). lia. }
+  unfold nbins_exact. destruct k.
+  - destruct (Qle_bool tiny_range (rnd (hi - lo))) eqn:Et; [|discriminate].
+    apply Qle_bool_iff in Et. injection EK as EK.
+    destruct (G _ Et (eq_sym EK)) as [->| ->]; [left; reflexivity| right; split; reflexivity].
+  - destruct (Qle_bool (NQ (bins_exact r n)) (hi - lo)) eqn:Ew.
+    + apply Qle_bool_iff in Ew. injection EK as EK.
+      assert (Hone : 1 <= hi - lo).
+      { eapply Qle_trans; [|exact Ew]. unfold NQ. change 1 with (inject_Z 1). rewrite <- Zle_Qle. lia. }
+      assert (Et : tiny_range <= rnd (hi - lo)).
+      { assert (Hm : pow2Q (-1022) <= hi - lo).
+        { eapply Qle_trans; [|exact Hone]. vm_compute. discriminate. }
+        pose proof (rnd_rel_bounds (hi - lo) Hm) as [B _].
+        assert (Hu : u53 <= 1 # 2) by (vm_compute; discriminate).
+        assert (Ht : tiny_range <= 1 # 2) by (vm_compute; discriminate).
+        nra. }
+      destruct (G _ Et (eq_sym EK)) as [->| ->]; [left; reflexivity| right; split; reflexivity].
+    + injection EK as EK. left. symmetry. exact EK.
+Qed.
+
+(* ------------------------------------------------------------------ *)
 (* examples: the hypotheses are satisfiable, the float effect at n = 2^k *)
 Example sturges_5 : np_edges Sturges DFloat 5 0 1 = NpOk 4 [0; 1 # 4; 1 # 2; 3 # 4; 1].
 Proof. vm_compute. reflexivity. Qed.
@@ -509,3 +970,7 @@ Print Assumptions rule_edges_exact_props.
 Print Assumptions np_nbins_exact.
 Print Assumptions rule_edges_sorted.
 Print Assumptions bin_contains_rule.
+Print Assumptions rnd_spec.
+Print Assumptions rnd_rel_error.
+Print Assumptions bins_at_exact_point_range.
+Print Assumptions np_nbins_bound.
